@@ -1,4 +1,4 @@
-import Proofs.Machine.Run
+import Proofs.Machine.HunkHeaders
 import Proofs.Headers.Paths
 import Proofs.Headers.HunkHeader
 /-!
@@ -115,5 +115,45 @@ theorem mode_change_reported (cfg : Cfg) :
     modeInfoText cfg "100644".toList "100755".toList = "mode +x".toList ∧
     modeInfoText cfg "100755".toList "100644".toList = "mode -x".toList := by
   constructor <;> (unfold modeInfoText; simp)
+
+-- whole runs: one hunk-header row per hunk ---------------------------------------------
+
+/-- **`one_header_row_per_hunk`** (whole runs). For every configuration in which the hunk header is a
+row of its own (`HHC`: hunk-header-style not raw, not omitted, not color-only, line number shown —
+the default) and every input whose first line identifies a git diff, that opens no merge-conflict
+region, in which no hunk-header line matches the commit regex and every hunk-header line is followed
+by a line of its hunk (`FollowedG`): the hunk-header rows of delta's output are, in input order,
+exactly one for each hunk-header line of the input. (The header of a hunk is written when the
+first line of the hunk arrives; `hunk_header_row_carries_fragment` says what it shows.) -/
+theorem one_header_row_per_hunk {cfg : Cfg} (hc : HHC cfg) {d : L} {ls : List L} {m : M}
+    (hd : detectSource d.text = .gitDiff)
+    (hl : ∀ l ∈ d :: ls, startsWith l.text Markers.mcBegin = false ∧ (isHHLine l = true → l.commitRe = false))
+    (hf : FollowedG false (d :: ls)) (e : run cfg (d :: ls) = .ok m) :
+    (m.out.filter (fun r => pHH r.kind)).map (·.src) = hhIndices 0 (d :: ls) :=
+  run_one_header_row_per_hunk hc hd hl hf e
+
+/-- a plain input line for the examples -/
+def mkL (s : String) : L :=
+  { raw := s.toList, text := s.toList, graphemes := s.toList.map (fun c => [c]),
+    commitRe := false, blame := false, grep := 0, submodule := none }
+
+def twoHunks : List L :=
+  ["diff --git a/x b/x", "--- a/x", "+++ b/x", "@@ -1,2 +1,2 @@ fn f()", " ctx", "-old", "+new",
+   "@@ -10 +10 @@ fn g()", "-a", "+b", "diff --git a/y b/y", "--- a/y", "+++ b/y", "@@ -3 +3 @@", "+z"].map mkL
+
+/-- the hypotheses are satisfiable (default configuration) and the conclusion is what the model computes -/
+example : HHC ({} : Cfg) := ⟨rfl, rfl, rfl, rfl⟩
+example : FollowedG false twoHunks := followedG_of_b _ _ (by decide)
+example : hhIndices 0 twoHunks = [3, 7, 13] := by decide
+example : (match run {} twoHunks with
+    | .ok m => (m.out.filter (fun r => pHH r.kind)).map (·.src) == [3, 7, 13]
+    | .error _ => false) = true := by decide
+
+/-- the hypothesis `FollowedG` is needed: a hunk-header line that is not followed by a line of its hunk
+(here: directly by the next file) gets no header row at all -/
+theorem dangling_hunk_header_has_no_row :
+    (match run {} (["diff --git a/x b/x", "--- a/x", "+++ b/x", "@@ -1 +1 @@", "diff --git a/y b/y"].map mkL) with
+     | .ok m => (m.out.filter (fun r => pHH r.kind)).map (·.src)
+     | .error _ => [99]) = [] := by decide
 
 end C14
